@@ -15,9 +15,9 @@ import (
 
 func init() {
 	core.Register(&core.Check{
-		ID:     "C31",
-		Rule:   "cases: every generated message type linked into the harness (the whole corpus, all API flavours and build configurations base/protoreflect/protolegacy) x every read-only entry point on its typed nil pointer: proto.Marshal/MarshalAppend/Size/Clone/Equal/CheckInitialized, protojson and prototext Marshal/Format, reflection IsValid/Has/Get/Range/WhichOneof/GetUnknown per field and oneof (and per registered extension), and every generated zero-argument Get*/Has* method called through package reflect; each result is compared with the result on mt.New(); distinct = distinct (type, entry point) pairs; non-trivial = the type has at least one field",
-		Assume: []string{"reflect.DeepEqual on getter results", "the corpus contains every generated type linked into the harness binary (gen.AllTypes ranges protoregistry.GlobalTypes)"},
+		ID:         "C31",
+		Rule:       "cases: every generated message type linked into the harness (the whole corpus, all API flavours and build configurations base/protoreflect/protolegacy) x every read-only entry point on its typed nil pointer: proto.Marshal/MarshalAppend/Size/Clone/Equal/CheckInitialized, protojson and prototext Marshal/Format, reflection IsValid/Has/Get/Range/WhichOneof/GetUnknown per field and oneof (and per registered extension), and every generated zero-argument Get*/Has* method called through package reflect; each result is compared with the result on mt.New(); distinct = distinct (type, entry point) pairs; non-trivial = the type has at least one field",
+		Assume:     []string{"reflect.DeepEqual on getter results", "the corpus contains every generated type linked into the harness binary (gen.AllTypes ranges protoregistry.GlobalTypes)"},
 		Exhaustive: func(tier string) bool { return false },
 		Batches: func(tier string) []core.Batch {
 			bs := stdBatches([]string{"base"}, 8)
